@@ -3,25 +3,9 @@
 use crate::{proofs, sym, witness};
 use duke::verif::reader;
 
-//# {"id":"c16_read_code_1","props":["C16"],"tier":"thorough","cap":3600,"z":["stubbing"],"bound":"Code attribute body with code_length = 1 and a symbolic opcode byte (all 256), empty exception table, no attributes, empty constant pool, unit visitor: read_code returns Ok or Err, never panics; unwind 6","fns":["duke::class_reader::read_code (first pass: label creation; second pass: decoding)"],"stubs":["RandomState::new","DefaultHasher::{write,finish}"]}
 //# {"id":"c16_labels_range_past_u16","props":["C16","C01"],"tier":"thorough","cap":7200,"z":["stubbing"],"bound":"code_length = 20, start_pc < 20, start_pc + length > 65535 (all such u16 pairs); one label-map entry; unwind 10","fns":["Labels::{new,get_or_create,get_or_create_range}"],"stubs":["RandomState::new","DefaultHasher::{write,finish}"]}
 //# {"id":"c16_labels_range","props":["C16","C01"],"tier":"thorough","cap":5400,"z":["stubbing"],"bound":"code_length = 20 (concrete, it sizes the hash map), all start_pc and length in u16; one or two label-map entries; unwind 10","fns":["duke::class_reader::labels::Labels::{new,get_or_create,get_or_create_range}"],"stubs":["RandomState::new","DefaultHasher::{write,finish}"]}
 proofs! {
-	#[cfg_attr(kani, kani::unwind(6))]
-	#[cfg_attr(kani, kani::stub(std::hash::RandomState::new, crate::hstubs::random_state_new))]
-	#[cfg_attr(kani, kani::stub(<std::hash::DefaultHasher as std::hash::Hasher>::write, crate::hstubs::hasher_write))]
-	#[cfg_attr(kani, kani::stub(<std::hash::DefaultHasher as std::hash::Hasher>::finish, crate::hstubs::hasher_finish))]
-	fn c16_read_code_1() {
-		let op = sym::u8();
-		// max_stack, max_locals, code_length = 1, code, exception_table_length = 0, attributes_count = 0
-		let body: [u8; 13] = [0, 1, 0, 1, 0, 0, 0, 1, op, 0, 0, 0, 0];
-		let (pool, _) = reader::Pool::read(&[0u8, 1]).expect("an empty constant pool");
-		let r = reader::read_code(&body, (), &pool);
-		witness!(r.is_ok(), "a one-byte method body that is accepted (e.g. return)");
-		witness!(r.is_err(), "a one-byte method body that is rejected");
-		core::mem::forget(r); core::mem::forget(pool);
-	}
-
 	#[cfg_attr(kani, kani::unwind(10))]
 	#[cfg_attr(kani, kani::stub(std::hash::RandomState::new, crate::hstubs::random_state_new))]
 	#[cfg_attr(kani, kani::stub(<std::hash::DefaultHasher as std::hash::Hasher>::write, crate::hstubs::hasher_write))]
